@@ -74,6 +74,12 @@ FINDINGS = [
          what="'\"a\" + \"b\"' was emitted as the sum of two C string literals (sketch did not compile)", cases=[]),
     dict(id="KF-C18-late-animation-never-ticked", property="C18", status="fixed", commit="d4b6861",
          what="an LCD animation started inside the main loop never advanced (no tick emitted); started inside a helper it referenced an undeclared state variable", cases=[]),
+    dict(id="KF-C09-list-ownership", property="C09", status="fixed", commit="74ca4bf",
+         what="__redu_list had no copy constructor / assignment / destructor: list literals evaluated in loop() leaked every pass and 'b = a' shared one buffer (use-after-free after append)",
+         cases=[prog("C09", common.PROLOGUE + 'a = analog_read("A0")\nx = a\ns = "s"\nwhile True:\n    L = [1, 2, 3]\n    L.append(7)\n    mon.write(x)\n    mon.write(len(L))\n    mon.write(L[0])\n    mon.write(L[-1])\n',
+                     [{"passes": 4, "ar": {"A0": [2]}}], "list literal assigned inside the main loop (leaked 12+ bytes per pass)", placement="loop")]),
+    dict(id="KF-C03-stale-constants", property="C03", status="fixed", commit="e2c78a7",
+         what="len(name) / flash_pattern(name) / glyph(slot, name) and list bookkeeping were folded from a flow-insensitive environment: stale after a re-binding or list mutation inside if/while/for/try, the main loop or a helper; unsound list mirror for run-time elements", cases=[]),
     # ---------------------------------------------------------------- open
     dict(id="KF-C06-named-exception", property="C06", status="open", commit=None,
          what="'except Exception:' is emitted as 'catch (Exception &)' although no such type exists in the sketch (does not compile; the project's own test pins this text)",
